@@ -2,7 +2,7 @@
    Only statements: each theorem is closed by [exact] of a lemma proved under theories/. *)
 From Coq Require Import ZArith List Bool Arith.
 From BV Require Import Space.DofMaps Space.Colouring Space.SpaceBasics Space.ColouringProofs Space.DofMapsProofs
-  Space.P1Proofs Space.RwgProofs Space.Corr Space.GridOk Space.C09Lemmas
+  Space.P1Proofs Space.RwgProofs Space.Corr Space.GridOk Space.C09Lemmas Space.FreezeProofs
   Concurrency.Interleave Concurrency.Launch Concurrency.FootprintFacts Concurrency.C16Lemmas.
 From BVgen Require Import Footprints.
 Import ListNotations.
@@ -99,3 +99,9 @@ Theorem C16_alias_closed_rwg : forall g sup incl trunc, grid_ok g -> support_in_
   alias_closed (rwg_space g sup incl trunc).
 Proof. exact c09_rwg_alias_closed. Qed.
 Print Assumptions C16_alias_closed_rwg.
+(* the correspondence evaluates the model on the list-backed copy of a space: same tables, same colour map *)
+Theorem C16_correspondence_evaluates_the_same_colouring : forall s : space,
+  colour_map (freeze s) = colour_map s /\
+  l2g_tab (freeze s) = l2g_tab s /\ mult_tab (freeze s) = mult_tab s /\ supp_tab (freeze s) = supp_tab s.
+Proof. exact (fun s => conj (freeze_colour_map s) (freeze_tables s)). Qed.
+Print Assumptions C16_correspondence_evaluates_the_same_colouring.
